@@ -467,4 +467,460 @@ theorem resolveWith_eq (C : Consts) (hC : Tied C) (t : Target) (verb : Verb) (hd
         simp [inferMethod, methodFor, finish, checkEntity, needsEntity, forbidsEntity,
           lookupHandler_plain C hC, hu']
 
+/-! ## guards for the confirmed findings, as decidable predicates -/
+
+/-- (finding F7) every query value passes `ValidateRor2Input` -/
+def queryValid (V : String → Bool) (req : Req) : Bool := req.query.all fun kv => V kv.2
+
+/-- (finding F20) every path segment passes `ValidateRor2Input` -/
+def keysValid (V : String → Bool) (req : Req) : Bool := req.path.all V
+
+/-- (finding "entity presence unchecked for actions") if the request asks for a registered action,
+the presence of an entity key matches the level the action was registered at -/
+def actionLevelMatches (roots : List Node) (req : Req) : Bool :=
+  match locate roots req.path with
+  | none => true
+  | some t =>
+    if methodOf t req == some .action then
+      match param "action" req with
+      | some name =>
+        match t.node.actions.lookup name with
+        | some e => e == t.hasKey
+        | none => true
+      | none => true
+    else true
+
+theorem route_eq_resolve (C : Consts) (V : String → Bool) (roots : List Node) (req : Req)
+    (s : String) (rest : List String) (sub : Node) (hp : req.path = s :: rest) (hf : findSub s roots = some sub)
+    (n : Node) (rp : List Seg) (ks : List String) (hk : Bool)
+    (hw : walk C V sub [] [] (s :: rest) = .found n rp ks hk) :
+    route C V roots req = (resolve C V n rp ks hk req).decision C := by
+  simp only [route, routeX, hp, hf, hw]
+  cases resolve C V n rp ks hk req <;> rfl
+
+theorem param_eq_lookupLast (req : Req) (name : String)
+    (h : (req.query.filter (fun kv => kv.1 == name)).length ≤ 1) :
+    lookupLast name req.query = param name req := by
+  rw [lookupLast_eq_lookup name req.query h]; rfl
+
+theorem dup_le_one (req : Req) (h : duplicateReserved req = false) (name : String)
+    (hn : name = "q" ∨ name = "ids" ∨ name = "action") :
+    (req.query.filter (fun kv => kv.1 == name)).length ≤ 1 := by
+  simp only [duplicateReserved, List.any_cons, List.any_nil, Bool.or_false, Bool.or_eq_false_iff,
+    decide_eq_false_iff_not, Nat.not_lt] at h
+  rcases hn with rfl | rfl | rfl
+  · exact h.1
+  · exact h.2.1
+  · exact h.2.2
+
+/-- the model's decision is the specification's, on every request the text determines and outside
+the three findings -/
+theorem route_eq_decide (C : Consts) (hC : Tied C) (V : String → Bool) (roots : List Node) (req : Req)
+    (hroots : nodesOk roots = true)
+    (hqv : queryValid V req = true) (hkv : keysValid V req = true)
+    (hact : actionLevelMatches roots req = true)
+    (hs1 : unknownHeaderValue req = false) (hs2 : emptyReservedValue req = false)
+    (hs3 : duplicateReserved req = false)
+    (hs4 : ∀ t, locate roots req.path = some t → otherVerbWithHeaderOnSimple t req = false ∧ keyAndIds t req = false) :
+    route C V roots req = Spec.decide V roots req := by
+  cases hp : req.path with
+  | nil => simp [route, routeX, Spec.decide, locate, hp, Consts.stRootNotFound]
+  | cons s rest =>
+    cases hf : findSub s roots with
+    | none => simp [route, routeX, Spec.decide, locate, hp, hf, Consts.stRootNotFound]
+    | some sub =>
+      have hvall : ∀ x ∈ rest, V x = true := by
+        intro x hx
+        have := List.all_eq_true.mp hkv x (by rw [hp]; exact List.mem_cons_of_mem _ hx)
+        exact this
+      have hw := walk_eq_aux C hC V rest.length rest (Nat.le_refl _) sub [] [] s hvall
+      cases hl : locateAt sub rest with
+      | none =>
+        simp only [hl, locatedOf] at hw
+        simp [route, routeX, Spec.decide, locate, hp, hf, hw, hl]
+      | some t =>
+        simp only [hl, locatedOf, List.nil_append] at hw
+        rw [route_eq_resolve C V roots req s rest sub hp hf _ _ _ _ hw]
+        have hloc : locate roots req.path = some t := by simp [locate, hp, hf, hl]
+        have hkeys : t.keys.all V = true := by
+          rw [List.all_eq_true]; intro k hk
+          exact hvall k (locateAt_keys_mem sub rest t hl k hk)
+        have hok : nodeOk t.node = true := locateAt_node_ok sub rest t hl (findSub_ok s roots hroots sub hf)
+        have hsimple := locateAt_simple_nokey sub rest t hl
+        -- the specification side
+        have hdec : Spec.decide V roots req = specTail t req.verb (methodHeader req) (param "q" req) (param "action" req)
+            (param "ids" req).isSome := by
+          have hqv' : (req.query.all fun kv => V kv.2) = true := hqv
+          simp only [Spec.decide, hloc, hkeys, hqv', Bool.not_true, Bool.or_self, Bool.false_eq_true, if_false,
+            specTail, methodOf, admitted]
+          cases methodFor t.node.isCollection t.hasKey req.verb (methodHeader req) (param "q" req).isSome
+            (param "ids" req).isSome (param "action" req).isSome with
+          | none => rfl
+          | some m => cases admittedWith t m (param "q" req) (param "action" req) <;> rfl
+        rw [hdec]
+        -- the model side
+        have hqv' : (req.query.all fun kv => V kv.2) = true := hqv
+        have hm0 : nameMapping C ((req.headers.lookup C.methodHeader).getD "") =
+            ((methodHeader req).bind methodNamed).getD .unknown := by
+          rw [nameMapping_eq C hC, hC.methodHeader]
+          unfold methodHeader
+          cases List.lookup "X-RestLi-Method" req.headers with
+          | none => simp [methodNamed_empty]
+          | some h => simp
+        simp only [resolve, hqv', Bool.not_true, Bool.false_eq_true, if_false, hm0, hC.paramFinder,
+          hC.paramAction, hC.paramIds,
+          param_eq_lookupLast req "q" (dup_le_one req hs3 "q" (Or.inl rfl)),
+          param_eq_lookupLast req "action" (dup_le_one req hs3 "action" (Or.inr (Or.inr rfl))),
+          param_eq_lookupLast req "ids" (dup_le_one req hs3 "ids" (Or.inr (Or.inl rfl)))]
+        have hs4' := hs4 t hloc
+        apply resolveWith_eq C hC t req.verb (methodHeader req) (param "q" req) (param "action" req)
+          (param "ids" req).isSome hok hsimple
+        · -- the header, if any, is one of the thirteen names
+          intro h hh
+          simp only [unknownHeaderValue, hh] at hs1
+          intro hn; simp [hn] at hs1
+        · intro h; simp [emptyReservedValue, h] at hs2
+        · intro h; simp [emptyReservedValue, h] at hs2
+        · intro hc hv
+          have := hs4'.1
+          simp only [otherVerbWithHeaderOnSimple, hc, hv, Bool.not_false, beq_self_eq_true, Bool.true_and,
+            Option.isSome_eq_false_iff, Option.isNone_iff_eq_none] at this
+          exact this
+        · intro hc hh hv hk
+          have := hs4'.2
+          simp only [keyAndIds, hc, hh, Option.isNone_none, Bool.true_and, hk, Bool.and_true] at this
+          rcases hv with hv | hv <;> simpa [hv] using this
+        · intro hm name e hname hlook
+          have hm' : methodOf t req = some .action := by
+            simp only [methodOf, hname, Option.isSome_some] at hm ⊢; exact hm
+          simp only [actionLevelMatches, hloc, hm', beq_self_eq_true, if_true, hname, hlook] at hact
+          simpa using hact
+
+/-! ## filters and the resource call: the shape of the event list -/
+
+/-- an event without its payload -/
+inductive Tag where
+  | pre (i : Nat) | inv | post (i : Nat)
+deriving DecidableEq, Repr
+
+def Event.tag : Event → Tag
+  | .pre i _ _ => .pre i
+  | .invoke _ _ => .inv
+  | .post i _ => .post i
+
+/-- the facts an event shows to a filter's `PreRequest` or to the resource method -/
+def Event.facts? : Event → Option Facts
+  | .pre _ f _ => some f
+  | .invoke f _ => some f
+  | .post _ _ => none
+
+theorem runPre_shape (f : Facts) : ∀ (fs : List FilterKind) (i : Nat) (seen : List Nat),
+    ∃ k, k ≤ fs.length ∧ (runPre f fs i seen).1.map Event.tag = (List.range' i k).map Tag.pre ∧
+      ((runPre f fs i seen).2.2 = none → k = fs.length) ∧
+      (∀ e ∈ (runPre f fs i seen).1, e.facts? = some f)
+  | [], i, seen => ⟨0, by simp [runPre]⟩
+  | k :: rest, i, seen => by
+    cases k with
+    | failPre => exact ⟨1, by simp [runPre, Event.tag, Event.facts?, List.range']⟩
+    | failPreER st => exact ⟨1, by simp [runPre, Event.tag, Event.facts?, List.range']⟩
+    | ctx =>
+      obtain ⟨k', hk, ht, hn, hf⟩ := runPre_shape f rest (i + 1) (seen ++ [i])
+      refine ⟨k' + 1, by simp; omega, ?_, ?_, ?_⟩
+      · simp only [runPre, List.map_cons, Event.tag, ht, List.range'_succ]
+      · intro h; simp only [runPre] at h; simp [hn h]
+      · intro e he
+        simp only [runPre, List.mem_cons] at he
+        rcases he with rfl | he
+        · rfl
+        · exact hf e he
+    | pass =>
+      obtain ⟨k', hk, ht, hn, hf⟩ := runPre_shape f rest (i + 1) seen
+      refine ⟨k' + 1, by simp; omega, ?_, ?_, ?_⟩
+      · simp only [runPre, List.map_cons, Event.tag, ht, List.range'_succ]
+      · intro h; simp only [runPre] at h; simp [hn h]
+      · intro e he
+        simp only [runPre, List.mem_cons] at he
+        rcases he with rfl | he
+        · rfl
+        · exact hf e he
+    | failPost =>
+      obtain ⟨k', hk, ht, hn, hf⟩ := runPre_shape f rest (i + 1) seen
+      refine ⟨k' + 1, by simp; omega, ?_, ?_, ?_⟩
+      · simp only [runPre, List.map_cons, Event.tag, ht, List.range'_succ]
+      · intro h; simp only [runPre] at h; simp [hn h]
+      · intro e he
+        simp only [runPre, List.mem_cons] at he
+        rcases he with rfl | he
+        · rfl
+        · exact hf e he
+
+theorem runPostRev_shape (seen : List Nat) : ∀ (l : List (Nat × FilterKind)),
+    ∃ m, m ≤ l.length ∧ (runPostRev seen l).1.map Event.tag = (l.take m).map (fun p => Tag.post p.1) ∧
+      ((runPostRev seen l).2 = none → m = l.length)
+  | [] => ⟨0, by simp [runPostRev]⟩
+  | (i, k) :: rest => by
+    by_cases hk : k = .failPost
+    · exact ⟨1, by simp [runPostRev, hk, Event.tag]⟩
+    · obtain ⟨m, hm, ht, hn⟩ := runPostRev_shape seen rest
+      refine ⟨m + 1, by simp; omega, ?_, ?_⟩
+      · simp [runPostRev, hk, Event.tag, ht]
+      · intro h; simp only [runPostRev, hk, if_false] at h; simp [hn h]
+
+theorem indexed_fst {α} : ∀ (l : List α) (i : Nat), (indexed l i).map Prod.fst = List.range' i l.length
+  | [], _ => rfl
+  | _ :: rest, i => by simp [indexed, indexed_fst rest (i + 1), List.range'_succ]
+
+theorem runPost_shape (fs : List FilterKind) (seen : List Nat) :
+    ∃ m, m ≤ fs.length ∧ (runPost fs seen).1.map Event.tag = ((List.range fs.length).reverse.take m).map Tag.post ∧
+      ((runPost fs seen).2 = none → m = fs.length) := by
+  obtain ⟨m, hm, ht, hn⟩ := runPostRev_shape seen (indexed fs 0).reverse
+  have hlen : (indexed fs 0).reverse.length = fs.length := by
+    have := congrArg List.length (indexed_fst fs 0)
+    simpa using this
+  refine ⟨m, by omega, ?_, fun h => by rw [hn h, hlen]⟩
+  simp only [runPost, ht]
+  have : ((indexed fs 0).reverse.take m).map (fun p => Tag.post p.1) =
+      ((((indexed fs 0).map Prod.fst).reverse).take m).map Tag.post := by
+    rw [← List.map_reverse, ← List.map_take, List.map_map]; rfl
+  rw [this, indexed_fst, List.range_eq_range']
+
+
+def refusesBefore : FilterKind → Bool
+  | .failPre | .failPreER _ => true
+  | _ => false
+
+theorem runPre_none (f : Facts) : ∀ (fs : List FilterKind) (i : Nat) (seen : List Nat),
+    fs.any refusesBefore = false → (runPre f fs i seen).2.2 = none
+  | [], _, _, _ => rfl
+  | k :: rest, i, seen, h => by
+    simp only [List.any_cons, Bool.or_eq_false_iff] at h
+    cases k <;> simp_all [runPre, refusesBefore, runPre_none f rest]
+
+theorem runPostRev_none (seen : List Nat) : ∀ (l : List (Nat × FilterKind)),
+    l.any (fun p => p.2 == .failPost) = false → (runPostRev seen l).2 = none
+  | [], _ => rfl
+  | (i, k) :: rest, h => by
+    simp only [List.any_cons, Bool.or_eq_false_iff, beq_eq_false_iff_ne, ne_eq] at h
+    simp [runPostRev, h.1, runPostRev_none seen rest h.2]
+
+theorem indexed_snd {α} : ∀ (l : List α) (i : Nat), (indexed l i).map Prod.snd = l
+  | [], _ => rfl
+  | _ :: rest, i => by simp [indexed, indexed_snd rest (i + 1)]
+
+theorem runPost_none (fs : List FilterKind) (seen : List Nat) (h : fs.any (· == .failPost) = false) :
+    (runPost fs seen).2 = none := by
+  apply runPostRev_none
+  rw [List.any_reverse]
+  have : (indexed fs 0).any (fun p => p.2 == .failPost) = ((indexed fs 0).map Prod.snd).any (· == .failPost) := by
+    rw [List.any_map]; rfl
+  rw [this, indexed_snd]; exact h
+
+/-- the resource method is reached once the filters let the request through: the closure's decoding
+succeeds and (finding: entity presence unchecked for actions) its path decoder finds the key it reads -/
+def reaches (f : Facts) (ownKey hasEntity : Bool) (req : Req) : Bool :=
+  !(f.method = .action && ownKey && !hasEntity) && req.decodes.contains f.method
+
+/-- the events of a routed request, whatever fails on the way -/
+theorem serveSegs_routed_shape (C : Consts) (V : String → Bool) (h : Handler) (req : Req)
+    (f : Facts) (ownKey hasEntity : Bool) (hr : routeX C V h.roots req = .routed f ownKey hasEntity) :
+    ∃ (k m : Nat) (mid : List Event), k ≤ h.filters.length ∧ m ≤ h.filters.length ∧
+      (serveSegs C V h req).events.map Event.tag =
+        (List.range k).map Tag.pre ++ mid.map Event.tag ++ ((List.range h.filters.length).reverse.take m).map Tag.post ∧
+      (mid = [] ∨ ∃ s, mid = [.invoke f s]) ∧
+      (mid ≠ [] → k = h.filters.length ∧ reaches f ownKey hasEntity req = true) ∧
+      (m ≠ 0 → mid ≠ [] ∧ req.implOk = true) ∧
+      (∀ e ∈ (serveSegs C V h req).events, e.facts? = none ∨ e.facts? = some f) ∧
+      (h.filters.any refusesBefore = false → k = h.filters.length ∧
+        (reaches f ownKey hasEntity req = true → mid ≠ [] ∧
+          (req.implOk = true → h.filters.any (· == .failPost) = false → m = h.filters.length))) := by
+  obtain ⟨k, hk, hkt, hkn, hkf⟩ := runPre_shape f h.filters 0 []
+  simp only [serveSegs, hr]
+  rcases hpre : runPre f h.filters 0 [] with ⟨pre, seen, r⟩
+  rw [hpre] at hkt hkn hkf
+  simp only at hkt hkn hkf
+  have hkt' : pre.map Event.tag = (List.range k).map Tag.pre := by rw [hkt, List.range_eq_range']
+  have hnone : h.filters.any refusesBefore = false → r = none := by
+    intro hh; have := runPre_none f h.filters 0 [] hh; rw [hpre] at this; exact this
+  cases r with
+  | some e =>
+    refine ⟨k, 0, [], hk, Nat.zero_le _, ?_, Or.inl rfl, by simp, by simp, ?_, ?_⟩
+    · cases e <;> simp [respond, hkt']
+    · intro ev hev
+      have : ev ∈ pre := by cases e <;> simpa [respond] using hev
+      exact Or.inr (hkf ev this)
+    · intro hh; exact absurd (hnone hh) (by simp)
+  | none =>
+    have hkn' : k = h.filters.length := hkn rfl
+    simp only
+    by_cases hpanic : (f.method = .action && ownKey && !hasEntity) = true
+    · -- the generated-style path decoder panics: recovered
+      refine ⟨k, 0, [], hk, Nat.zero_le _, ?_, Or.inl rfl, by simp, by simp, ?_, ?_⟩
+      · simp [runHandler, hpanic, respond, hkt']
+      · intro ev hev
+        have : ev ∈ pre := by simpa [runHandler, hpanic, respond] using hev
+        exact Or.inr (hkf ev this)
+      · intro _; exact ⟨hkn', by simp [reaches, hpanic]⟩
+    · have hpanic' : (f.method = .action && ownKey && !hasEntity) = false := by simpa using hpanic
+      by_cases hdec : req.decodes.contains f.method = true
+      · have hmem : f.method ∈ req.decodes := by simpa using hdec
+        have hreach : reaches f ownKey hasEntity req = true := by simp [reaches, hpanic', hmem]
+        by_cases himpl : req.implOk = true
+        · -- the implementation ran and succeeded: post filters
+          obtain ⟨m, hm, hmt, hmn⟩ := runPost_shape h.filters seen
+          rcases hpost : runPost h.filters seen with ⟨post, pr⟩
+          rw [hpost] at hmt hmn
+          simp only at hmt hmn
+          have hev : ∀ pr', (respond C (pre ++ [Event.invoke f seen] ++ post) pr' (C.stSuccess f.method)).events =
+              pre ++ [Event.invoke f seen] ++ post := by
+            intro pr'; cases pr' with
+            | none => rfl
+            | some e => cases e <;> rfl
+          refine ⟨k, m, [.invoke f seen], hk, hm, ?_, Or.inr ⟨seen, rfl⟩, fun _ => ⟨hkn', hreach⟩,
+            fun _ => ⟨by simp, himpl⟩, ?_, ?_⟩
+          · simp only [runHandler, hpanic', hdec, himpl, Bool.false_eq_true, if_false, Bool.not_true]
+            cases pr with
+            | none => simp [respond, hkt', hmt, Event.tag]
+            | some e => cases e <;> simp [respond, hkt', hmt, Event.tag]
+          · intro ev hev'
+            simp only [runHandler, hpanic', hdec, himpl, Bool.false_eq_true, if_false, Bool.not_true] at hev'
+            have hmem : ev ∈ pre ++ [Event.invoke f seen] ++ post := by
+              cases pr with
+              | none => simpa [respond] using hev'
+              | some e => cases e <;> simpa [respond] using hev'
+            simp only [List.mem_append, List.mem_singleton] at hmem
+            rcases hmem with (hp | rfl) | hp
+            · exact Or.inr (hkf ev hp)
+            · exact Or.inr rfl
+            · -- a post event carries no facts
+              have : ev.tag ∈ post.map Event.tag := List.mem_map_of_mem hp
+              rw [hmt] at this
+              obtain ⟨i, _, hi⟩ := List.mem_map.mp this
+              cases ev <;> simp_all [Event.tag, Event.facts?]
+          · intro _
+            refine ⟨hkn', fun _ => ⟨by simp, fun _ hnp => ?_⟩⟩
+            have := runPost_none h.filters seen hnp
+            rw [hpost] at this
+            exact hmn this
+        · -- the implementation failed
+          have himpl' : req.implOk = false := by simpa using himpl
+          refine ⟨k, 0, [.invoke f seen], hk, Nat.zero_le _, ?_, Or.inr ⟨seen, rfl⟩, fun _ => ⟨hkn', hreach⟩,
+            by simp, ?_, ?_⟩
+          · simp [runHandler, hpanic', hmem, himpl', respond, hkt', Event.tag]
+          · intro ev hev
+            have : ev ∈ pre ++ [Event.invoke f seen] := by
+              simpa [runHandler, hpanic', hmem, himpl', respond] using hev
+            simp only [List.mem_append, List.mem_singleton] at this
+            rcases this with hp | rfl
+            · exact Or.inr (hkf ev hp)
+            · exact Or.inr rfl
+          · intro _; exact ⟨hkn', fun _ => ⟨by simp, fun hi => by simp [himpl'] at hi⟩⟩
+      · -- keys, parameters or body do not decode
+        have hdec' : req.decodes.contains f.method = false := by simpa using hdec
+        have hnmem : ¬ f.method ∈ req.decodes := by simpa using hdec' 
+        refine ⟨k, 0, [], hk, Nat.zero_le _, ?_, Or.inl rfl, by simp, by simp, ?_, ?_⟩
+        · simp [runHandler, hpanic', hnmem, respond, hkt']
+        · intro ev hev
+          have : ev ∈ pre := by simpa [runHandler, hpanic', hnmem, respond] using hev
+          exact Or.inr (hkf ev this)
+        · intro _; exact ⟨hkn', by simp [reaches, hnmem]⟩
+
+/-! ## the string level -/
+
+theorem splitSlash_ne_nil : ∀ cs, splitSlash cs ≠ []
+  | [] => by simp [splitSlash]
+  | c :: cs => by
+    simp only [splitSlash]
+    split
+    · simp
+    · split <;> simp
+
+def noSlash (s : String) : Bool := !s.toList.contains '/'
+
+theorem splitSlash_noSlash : ∀ (cs : List Char), cs.contains '/' = false → splitSlash cs = [cs]
+  | [], _ => rfl
+  | c :: cs, h => by
+    simp only [List.contains_cons, Bool.or_eq_false_iff, beq_eq_false_iff_ne, ne_eq] at h
+    have hc : c ≠ '/' := fun e => h.1 e.symm
+    simp [splitSlash, splitSlash_noSlash cs h.2, hc]
+
+theorem splitSlash_append (a : List Char) (ha : a.contains '/' = false) (rest : List Char) :
+    splitSlash (a ++ '/' :: rest) = a :: splitSlash rest := by
+  induction a with
+  | nil =>
+    simp only [List.nil_append, splitSlash]
+    cases hs : splitSlash rest with
+    | nil => exact absurd hs (splitSlash_ne_nil rest)
+    | cons seg more => simp
+  | cons c cs ih =>
+    simp only [List.contains_cons, Bool.or_eq_false_iff, beq_eq_false_iff_ne, ne_eq] at ha
+    have hc : c ≠ '/' := fun e => ha.1 e.symm
+    simp [splitSlash, ih ha.2, hc]
+
+/-- splitting the joined path gives the segments back -/
+theorem splitSlash_joinSlash : ∀ (segs : List String), segs ≠ [] → segs.all noSlash = true →
+    (splitSlash (joinSlash segs)).map String.ofList = segs
+  | [], h, _ => absurd rfl h
+  | [s], _, h => by
+    simp only [List.all_cons, List.all_nil, Bool.and_true, noSlash, Bool.not_eq_eq_eq_not, Bool.not_true] at h
+    simp [joinSlash, splitSlash_noSlash _ h]
+  | s :: s2 :: rest, _, h => by
+    simp only [List.all_cons, Bool.and_eq_true] at h
+    have hs : s.toList.contains '/' = false := by simpa [noSlash] using h.1
+    have ih := splitSlash_joinSlash (s2 :: rest) (by simp) (by simp [List.all_cons, h.2])
+    simp only [joinSlash, splitSlash_append _ hs, List.map_cons, ih]
+    simp
+
+/-! ## not-routed requests -/
+
+theorem route_routed_iff (C : Consts) (V : String → Bool) (roots : List Node) (req : Req) (f : Facts) :
+    route C V roots req = .routed f ↔ ∃ o e, routeX C V roots req = .routed f o e := by
+  unfold route
+  cases routeX C V roots req <;> simp
+
+theorem serveSegs_unrouted (C : Consts) (V : String → Bool) (h : Handler) (req : Req) (st : Nat)
+    (hr : route C V h.roots req = .reject st) :
+    (serveSegs C V h req).events = [] ∧ (serveSegs C V h req).status = st := by
+  unfold route at hr
+  unfold serveSegs
+  cases hx : routeX C V h.roots req <;> rw [hx] at hr <;> simp_all [respond]
+
+/-! ## `Handler()` -/
+
+mutual
+theorem cloneNode_eq : (n : Node) → cloneNode n = n
+  | .mk _ _ _ _ _ subs => by simp [cloneNode, cloneNodes_eq subs]
+theorem cloneNodes_eq : (l : List Node) → cloneNode.cloneNodes l = l
+  | [] => by simp [cloneNode.cloneNodes]
+  | n :: rest => by simp [cloneNode.cloneNodes, cloneNode_eq n, cloneNodes_eq rest]
+end
+
+theorem handler_roots (s : Server) : s.handler.roots = s.roots := by
+  simp [Server.handler, cloneNodes_eq]
+
+theorem register_pfx (s : Server) (segs : List Seg) (r : Reg) : (s.register segs r).1.pfx = s.pfx := by
+  simp [Server.register]
+
+theorem register_filters (s : Server) (segs : List Seg) (r : Reg) : (s.register segs r).1.filters = s.filters := by
+  simp [Server.register]
+
+/-- all registrations of a list, in order -/
+def registerAll (s : Server) : List (List Seg × Reg) → Server
+  | [] => s
+  | (segs, r) :: rest => registerAll (s.register segs r).1 rest
+
+theorem registerAll_pfx (s : Server) : ∀ regs, (registerAll s regs).pfx = s.pfx := by
+  intro regs
+  induction regs generalizing s with
+  | nil => rfl
+  | cons x rest ih => obtain ⟨segs, r⟩ := x; simp [registerAll, ih, register_pfx]
+
+/-! ## mounting -/
+
+theorem slash_toList : ("/" : String).toList = ['/'] := by decide
+
+theorem serveHTTP_bare (C : Consts) (V : String → Bool) (h : Handler) (req : Req)
+    (hp : h.pfx = "/") (hne : req.path ≠ []) (hns : req.path.all noSlash = true) :
+    serveHTTP C V h ⟨"", String.ofList ('/' :: joinSlash req.path), req⟩ = serveSegs C V h req := by
+  simp only [serveHTTP, hp, slash_toList, if_true, String.toList_ofList, stripPrefix, splitSlash_joinSlash _ hne hns]
+
 end Restli.Routing
